@@ -1066,21 +1066,320 @@ def merge(rep, kr):
         rep.canaries += 1
         rep.canaries_fired += 1 if kr.canary else 0
     from harness import k_replay
-    tried = 0
+    # confirm through the public API: counterexamples are tried until one reproduces (at most 3 real replays, 12 attempts;
+    # a configuration that cannot be realised as a plotfile - e.g. a refinement factor > 1 - is skipped, not counted)
+    replays, attempts, notrep = 0, 0, []
+    sig = '%s/%s' % (rep.pid, kr.name)
     for f in kr.failed:
-        if tried >= 2:
+        if replays >= 3 or attempts >= 12:
             break
-        tried += 1
+        attempts += 1
         status, info = k_replay.confirm(rep, kr, f)
-        sig = '%s/%s' % (rep.pid, kr.name)
         if status == 'reproduced':
             rep.violations.append({'signature': sig, 'what': (f['what'])[:400] + ' [confirmed through the public API on a plotfile with the counterexample\'s box shapes]', 'replay': info, 'klemma': True})
+            notrep = []
             break
-        rep.unreproduced.append({'signature': sig, 'what': f['what'][:300], 'replay_status': status, 'replay_output': str(info)[-400:], 'model': {k: v for k, v in (f.get('model') or {}).items() if not k.startswith(('dm_', 'wlen', 'q'))}})
+        if status != 'unrealisable':
+            replays += 1
+        notrep.append({'signature': sig, 'what': f['what'][:300], 'replay_status': status, 'replay_output': str(info)[-400:], 'model': {k: v for k, v in (f.get('model') or {}).items() if not k.startswith(('dm_', 'wlen', 'q'))}})
+    if notrep:
+        real = [x for x in notrep if x['replay_status'] != 'unrealisable']
+        rep.unreproduced.extend((real or notrep)[:2])
     for f in kr.flags:
         rep.extra.setdefault('kernel_lemma_flags', [])
         if f[:100] not in rep.extra['kernel_lemma_flags']:
             rep.extra['kernel_lemma_flags'].append(f[:100])
+
+
+# ---------------------------------------------------------------------------------------------------------------
+# K-chefmove: chef.chefs_knife_user_pfile with an uninterpreted recipe
+
+@lemma('k_chefmove')
+def k_chefmove(rep):
+    mods = common.mods()
+    cm = mods['amr_kitchen.chef.chef']
+    kr = KResult('K-chefmove', ['chef.chefs_knife_user_pfile', 'utils.shape_from_header'],
+                 {'FABs per file': '1..3, independent extents 1..2^20', 'nf': '1..4096', 'kept components': '0..2 symbolic indices',
+                  'recipe': 'uninterpreted: returns a fresh array of the box shape (one component) or of the box shape x 2', 'claim':
+                  'the recipe receives the whole box (all components) and the field-index table; per box the new header, the kept components followed by the recipe output, '
+                  'in Fortran order, are written where the returned offset says; min / max are taken over what was written'})
+    FI = {'a': 0}
+    for m in (1, 2, 3):
+        for nkeep in (0, 1, 2):
+            for two in (False, True):
+                if m == 3 and (nkeep == 1 or two):
+                    continue
+                canary = (m == 2 and nkeep == 1 and not two)
+                for can in ((False, True) if canary else (False,)):
+                    def path(ctx, m=m, nkeep=nkeep, two=two, can=can):
+                        kr.config = {'m': m, 'nkeep': nkeep, 'two': two, 'canary': can}
+                        kf, fabs = make_file(ctx, m, 3)
+                        kfs = KFS()
+                        kfs.add('in', kf)
+                        nf = fabs[0].nf
+                        kept = sym_comps(ctx, 'keep', nkeep, nf)
+                        kr.realisable = [a.t != b.t for i, a in enumerate(kept) for b in kept[i + 1:]]
+                        calls = []
+
+                        def recipe(field_indexes, arr):
+                            j = len(calls)
+                            vf = klv.KFile('recipe%d' % j, [])
+                            shp = tuple(arr.shape[:3]) + ((2,) if two else ())
+
+                            def addr(idx, shp=shp, vf=vf):
+                                lin = idx[-1]
+                                for d in range(len(shp) - 2, -1, -1):
+                                    lin = idx[d] + I(shp[d]) * lin
+                                return vf.gbase + 8 * lin
+                            out = klv.LV(vf, shp, addr, 'recipe-output')
+                            calls.append((field_indexes, arr, out))
+                            return out
+                        args = {'bfpath': 'in', 'newbfpath': 'out', 'recipe': recipe, 'field_indexes': FI, 'ids_keep': list(kept)}
+                        with kpatched(mods, kfs), common.quiet():
+                            res = cm.chefs_knife_user_pfile(args)
+                        what = 'K-chefmove m=%d kept %d recipe output %s' % (m, nkeep, '4D x 2' if two else '3D')
+                        out = kfs.files.get('out')
+                        kr.obligations += 1
+                        if not isinstance(res, tuple) or len(res) != 3 or out is None or len(out.writes) != 2 * m or len(calls) != m or len(res[0]) != m:
+                            kr.fail(ctx, '%s: %s calls of the recipe, %s writes, %s offsets' % (what, len(calls), len(out.writes) if out else None, len(res[0]) if isinstance(res, tuple) else res))
+                            return
+                        kr.discharged += 1
+                        offs, mins, maxs = res
+                        ncomp = nkeep + (2 if two else 1)
+                        for k in range(m):
+                            fi, arr, new = calls[k]
+                            fab = fabs[k]
+                            kr.obligations += 1
+                            if fi is not FI or not isinstance(arr, klv.LV):
+                                kr.fail(ctx, '%s: box %d: the recipe did not get the field-index table and an array' % (what, k))
+                                return
+                            kr.discharged += 1
+                            side_obligations(ctx, kr, arr, what)
+                            if not shape_equal(ctx, kr, arr.shape, tuple(fab.n) + (nf,), '%s box %d recipe input' % (what, k)):
+                                return
+                            i4 = fresh_index(ctx, 'r%d' % k, tuple(fab.n) + (nf,))
+                            prove(ctx, kr, '%s box %d: recipe input element address' % (what, k), arr.at(i4) == fab.elem_addr(i4[:3], i4[3]))
+                            hdr, reg = out.writes[2 * k], out.writes[2 * k + 1]
+                            if hdr[0] != 'hdr' or reg[0] != 'region' or len(reg[2].parts) != 1:
+                                kr.obligations += 1
+                                kr.fail(ctx, '%s: box %d is not written as header + one region' % (what, k))
+                                return
+                            prove(ctx, kr, '%s: returned offset %d is where the header was written' % (what, k), I(offs[k]) == hdr[1])
+                            kr.obligations += 1
+                            if hdr[2] == fab.header(nf=ncomp):
+                                kr.discharged += 1
+                            else:
+                                kr.fail(ctx, '%s: header of box %d is %r' % (what, k, hdr[2][-50:]))
+                            view = reg[2].parts[0]
+                            side_obligations(ctx, kr, view, what)
+                            want_shape = tuple(fab.n) + (ncomp,)
+                            if not shape_equal(ctx, kr, view.shape, want_shape, '%s box %d written' % (what, k)):
+                                return
+                            idx = fresh_index(ctx, 'w%d' % k, want_shape)
+                            c = idx[3]
+                            want = new.at(idx[:3] + ((c - nkeep,) if two else ()))
+                            for q in range(nkeep - 1, -1, -1):
+                                want = z3.If(c == q, fab.elem_addr(idx[:3], kept[q].t), want)
+                            if can and k == 1:
+                                want = want + 8
+                            n0 = len(kr.failed)
+                            ok = prove(ctx, kr, '%s box %d: written element address' % (what, k), view.at(idx) == want)
+                            if can and k == 1:
+                                kr.canary = (kr.canary is not False) and (not ok)
+                                del kr.failed[n0:]
+                                kr.obligations -= 1
+                            # extrema are taken over the written array, per component
+                            for name, mm in (('min', mins), ('max', maxs)):
+                                e = mm[k] if hasattr(mm, '__getitem__') else None
+                                kr.obligations += 1
+                                if not isinstance(e, klv.MinMax) or e.kind != name or tuple(e.axis if isinstance(e.axis, tuple) else (e.axis,)) != (0, 1, 2) or not isinstance(e.view, klv.LV):
+                                    kr.fail(ctx, '%s box %d: %s values are not np.%s(written, axis=(0, 1, 2))' % (what, k, name, name))
+                                    continue
+                                kr.discharged += 1
+                                if e.view is not view:
+                                    j4 = fresh_index(ctx, 'e%s%d' % (name, k), want_shape)
+                                    prove(ctx, kr, '%s box %d: %s taken over the written data' % (what, k, name), e.view.at(j4) == view.at(j4))
+                    run_lemma(kr, path)
+    rep.kernel_lemmas.append(kr.as_dict())
+    merge(rep, kr)
+
+
+# ---------------------------------------------------------------------------------------------------------------
+# K-slicebox: mandoline.blades.slice_box / plate_box (reads, plane selection, footprint), modulo expand_array (K-expand)
+
+class _Expanded:
+    """What the stubbed expand_array returns: the un-expanded view and the factor it was asked to expand by."""
+
+    def __init__(self, arr, factor):
+        self.arr, self.factor = arr, factor
+
+    def copy(self):
+        return self
+
+
+@lemma('k_slicebox')
+def k_slicebox(rep):
+    mods = common.mods()
+    bl = mods['amr_kitchen.mandoline.blades']
+    from symx import npfacade
+    kr = KResult('K-slicebox', ['mandoline.blades.slice_box', 'mandoline.blades.plate_box'],
+                 {'in-plane extents': '1..2^20 (symbolic)', 'extent along the normal': '1..3 (concrete: the cell-centre grid is built with np.linspace)',
+                  'normal': '0, 1, 2', 'nf': '1..4096', 'fields': '1-2 symbolic component indices + the level map (None)', 'factor': '1, 2, 4',
+                  'plane': 'below the first centre, above the last, on each centre, between each pair', 'FAB': 'either of 2 in the file',
+                  'modulo': 'expand_array is replaced by a recorder (K-expand proves it)'})
+    stub = {'amr_kitchen.utils': {'int': klv.kint}, 'amr_kitchen.mandoline.blades': {'expand_array': lambda arr, factor: _Expanded(arr, factor)}}
+    dxn = 0.25
+    lo_phys = 1.0
+    configs = []
+    for cn in (0, 1, 2):
+        for nn in (1, 2, 3):
+            centres = [lo_phys + dxn * (k + 0.5) for k in range(nn)]
+            cases = [('below', centres[0] - dxn / 4, None, 0), ('above', centres[-1] + dxn / 4, nn - 1, None)]
+            for k in range(nn):
+                cases.append(('on%d' % k, centres[k], k, k))
+            for k in range(nn - 1):
+                cases.append(('between%d' % k, centres[k] + dxn / 4, k, k + 1))
+            for ci, case in enumerate(cases):
+                configs.append((cn, nn, case, (ci + cn) % 2, [1, 2, 4][(ci + nn) % 3], 1 + (ci + cn + nn) % 2))
+    if common.TIER == 'quick':
+        configs = configs[::2]
+    configs.append((1, 2, ('between0', lo_phys + dxn * 0.75, 0, 1), 1, 2, 2, True))
+    for cfg in configs:
+        canary = len(cfg) == 7
+
+        def path(ctx, cfg=cfg, canary=canary):
+            cn, nn, (cname, pos, kleft, kright), which, factor, nfid = cfg[:6]
+            kr.config = {'cn': cn, 'nn': nn, 'case': cname, 'which': which, 'factor': factor, 'nfid': nfid, 'canary': canary}
+            cx, cy = [d for d in range(3) if d != cn]
+            kf, fabs = make_file(ctx, 2, 3)
+            kfs = KFS()
+            kfs.add('file', kf)
+            fab = fabs[which]
+            lo_n = 4
+            ctx.assume(fab.lo[cn].t == lo_n)
+            ctx.assume(fab.n[cn].t == nn)
+            comps = sym_comps(ctx, 'fid', nfid, fab.nf)
+            lo = [S(fab.lo[d].t) if d != cn else lo_n for d in range(3)]
+            hi = [S(fab.lo[d].t + fab.n[d].t - 1) if d != cn else lo_n + nn - 1 for d in range(3)]
+            Lv = 1
+            limit = Lv + {1: 0, 2: 1, 4: 2}[factor]
+            box = [[0.0, 1.0], [0.0, 1.0], [0.0, 1.0]]
+            box[cn] = [lo_phys, lo_phys + nn * dxn]
+            dx = [[9.0, 9.0, 9.0] for _ in range(limit + 1)]
+            dx[Lv] = [0.5, 0.5, 0.5]
+            dx[Lv][cn] = dxn
+            args = {'Lv': Lv, 'pos': pos, 'fidxs': list(comps[:1]) + [None] + list(comps[1:]), 'limit_level': limit, 'indexes': [lo, hi], 'cfile': 'file',
+                    'offset': S(fab.start), 'box': box, 'cx': cx, 'cy': cy, 'cn': cn, 'dx': dx, 'bidx': 7}
+            with patch.Patched(mods, kfs, stubs=stub), common.quiet():
+                out = bl.slice_box(args)
+            what = 'K-slicebox normal %d, %d cells, plane %s, FAB %d, factor %d' % (cn, nn, cname, which, factor)
+            kr.obligations += 1
+            if not isinstance(out, list) or len(out) != 4:
+                kr.fail(ctx, '%s: returned %s' % (what, type(out).__name__))
+                return
+            kr.discharged += 1
+            kr.obligations += 2
+            if out[2] != fab.header():
+                kr.fail(ctx, '%s: returned header is not the box header' % what)
+            else:
+                kr.discharged += 1
+            if out[3] != 7:
+                kr.fail(ctx, '%s: returned box id %r' % (what, out[3]))
+            else:
+                kr.discharged += 1
+            for side, k in ((0, kleft), (1, kright)):
+                o = out[side]
+                kr.obligations += 1
+                if (o is None) != (k is None):
+                    kr.fail(ctx, '%s: side %d is %s, expected %s' % (what, side, 'empty' if o is None else 'filled', 'empty' if k is None else 'plane %d' % k))
+                    continue
+                kr.discharged += 1
+                if o is None:
+                    continue
+                centre = lo_phys + dxn * (k + 0.5)
+                kr.obligations += 2
+                if abs(float(o['normal']) - centre) > 1e-12:
+                    kr.fail(ctx, '%s: side %d normal coordinate %r, expected %r' % (what, side, o['normal'], centre))
+                else:
+                    kr.discharged += 1
+                if o['level'] != Lv:
+                    kr.fail(ctx, '%s: side %d level %r' % (what, side, o['level']))
+                else:
+                    kr.discharged += 1
+                for key, c in (('sx', cx), ('sy', cy)):
+                    prove(ctx, kr, '%s: side %d %s start' % (what, side, key), I(o[key][0]) == fab.lo[c].t * factor)
+                    prove(ctx, kr, '%s: side %d %s stop' % (what, side, key), I(o[key][1]) == (fab.lo[c].t + fab.n[c].t) * factor)
+                kr.obligations += 1
+                if len(o['data']) != nfid or not all(isinstance(e, _Expanded) for e in o['data']):
+                    kr.fail(ctx, '%s: side %d holds %d arrays for %d fields' % (what, side, len(o['data']), nfid))
+                    continue
+                kr.discharged += 1
+                for q, e in enumerate(o['data']):
+                    kr.obligations += 1
+                    if e.factor != factor:
+                        kr.fail(ctx, '%s: side %d expands by %r' % (what, side, e.factor))
+                    else:
+                        kr.discharged += 1
+                    view = e.arr
+                    if not isinstance(view, klv.LV):
+                        kr.obligations += 1
+                        kr.fail(ctx, '%s: side %d field %d is %s' % (what, side, q, type(view).__name__))
+                        continue
+                    side_obligations(ctx, kr, view, what)
+                    if not shape_equal(ctx, kr, view.shape, (fab.n[cx], fab.n[cy]), '%s side %d field %d' % (what, side, q)):
+                        continue
+                    idx = fresh_index(ctx, 'p%d_%d' % (side, q), (fab.n[cx], fab.n[cy]))
+                    i3 = [None, None, None]
+                    i3[cx], i3[cy], i3[cn] = idx[0], idx[1], z3.IntVal(k)
+                    want = fab.elem_addr(tuple(i3), comps[q].t)
+                    if canary and side == 1 and q == 0:
+                        want = want + 8
+                    n0 = len(kr.failed)
+                    ok = prove(ctx, kr, '%s: side %d field %d element address' % (what, side, q), view.at(idx) == want)
+                    if canary and side == 1 and q == 0:
+                        kr.canary = (kr.canary is not False) and (not ok)
+                        del kr.failed[n0:]
+                        kr.obligations -= 1
+        run_lemma(kr, path)
+    # plate_box: the 2D reader (no plane, both extents symbolic)
+    for which in (0, 1):
+        for factor in (1, 2):
+            def path2(ctx, which=which, factor=factor):
+                kr.config = {'plate': True, 'which': which, 'factor': factor}
+                kf, fabs = make_file(ctx, 2, 2)
+                kfs = KFS()
+                kfs.add('file', kf)
+                fab = fabs[which]
+                comps = sym_comps(ctx, 'fid', 2, fab.nf)
+                Lv = 0
+                limit = Lv + factor - 1
+                args = {'Lv': Lv, 'fidxs': [comps[0], comps[1], None], 'limit_level': limit, 'indexes': [[S(fab.lo[0].t), S(fab.lo[1].t)], list(fab.hi)], 'cfile': 'file',
+                        'offset': S(fab.start), 'box': [[0.0, 1.0], [0.0, 1.0]], 'cx': 0, 'cy': 1, 'dx': [[0.5, 0.5]] * (limit + 1)}
+                with patch.Patched(mods, kfs, stubs=stub), common.quiet():
+                    o = bl.plate_box(args)
+                what = 'K-slicebox plate_box FAB %d factor %d' % (which, factor)
+                kr.obligations += 1
+                if not isinstance(o, dict) or len(o.get('data', [])) != 2 or o.get('level') != Lv or o.get('header') != fab.header():
+                    kr.fail(ctx, '%s: malformed result' % what)
+                    return
+                kr.discharged += 1
+                for key, c in (('sx', 0), ('sy', 1)):
+                    prove(ctx, kr, '%s: %s start' % (what, key), I(o[key][0]) == fab.lo[c].t * factor)
+                    prove(ctx, kr, '%s: %s stop' % (what, key), I(o[key][1]) == (fab.lo[c].t + fab.n[c].t) * factor)
+                for q, e in enumerate(o['data']):
+                    kr.obligations += 1
+                    if not isinstance(e, _Expanded) or e.factor != factor or not isinstance(e.arr, klv.LV):
+                        kr.fail(ctx, '%s: field %d is not expand_array(view, %d)' % (what, q, factor))
+                        continue
+                    kr.discharged += 1
+                    side_obligations(ctx, kr, e.arr, what)
+                    if not shape_equal(ctx, kr, e.arr.shape, tuple(fab.n), '%s field %d' % (what, q)):
+                        continue
+                    idx = fresh_index(ctx, 'pp%d' % q, tuple(fab.n))
+                    prove(ctx, kr, '%s: field %d element address' % (what, q), e.arr.at(idx) == fab.elem_addr(idx, comps[q].t))
+            run_lemma(kr, path2)
+    rep.kernel_lemmas.append(kr.as_dict())
+    merge(rep, kr)
 
 
 def run_into(rep, names):
